@@ -104,6 +104,12 @@ func (e *Engine) link(t *Term) {
 // query decides PC ∧ extra (extra may be nil = the whole PC) and, if sat,
 // returns a model of the whole PC ∧ extra.
 func (e *Engine) query(extra *Term) (Verdict, Model) {
+	if extra != nil && extra.uf {
+		if e.debug && len(e.pendingAxioms) > 0 {
+			fmt.Fprintf(os.Stderr, "UFCOND %s\n", termString(extra, 5))
+		}
+		e.flushAxioms()
+	}
 	var conj []*Term
 	var roots map[int32]bool
 	if extra != nil {
